@@ -278,6 +278,18 @@ func CheckC16(c *Ctx) (*Outcome, error) {
 		return nil, err
 	}
 	found = append(found, f3...)
+	nCrash := 12
+	if c.Tier == "thorough" {
+		nCrash = 90
+	}
+	fcs, err := c.RunCases(nCrash, func(i int) ([]*History, error) {
+		rng := c.Rng("c16-crash-shrink", i)
+		return []*History{CrashThenShrink(rng, i%6, []string{"crash-before", "crash-after", "crash-torn"}[(i/6)%3])}, nil
+	}, JudgeC16, note)
+	if err != nil {
+		return nil, err
+	}
+	found = append(found, fcs...)
 	f4, err := c.RunCases(1, func(int) ([]*History, error) { return []*History{F9Probe()}, nil }, JudgeC16, note)
 	if err != nil {
 		return nil, err
